@@ -270,6 +270,15 @@ qb_log_blackbox_print_from_file(const char *bb_filename)
 	if (instance == NULL) {
 		return -EIO;
 	}
+	/*
+	 * a record cannot be larger than the ring it sits in: do not ask
+	 * qb_rb_chunk_read() for more than that, whatever size a damaged
+	 * chunk header claims
+	 */
+	if (qb_rb_space_free(instance) >= 0 && qb_rb_space_used(instance) >= 0 &&
+	    max_size > qb_rb_space_free(instance) + qb_rb_space_used(instance)) {
+		max_size = qb_rb_space_free(instance) + qb_rb_space_used(instance);
+	}
 	chunk = malloc(max_size + chunk_pad);
 	if (!chunk) {
 		goto cleanup;
